@@ -1178,6 +1178,45 @@ def inlined_calls(db, fn, depth=2, _outer=None, _seen=None):
     return out
 
 
+def flag_edge_for_value(fn, site, val):
+    """edge of the bool switch at `site` that is taken when the *tested field* has value `val` ('true' / 'false'): the switch may
+    test the field directly or through negations (`if !self.armed`, `if self.state == Pending` for a two-valued state)"""
+    t = fn.term(site.bb)
+    p = op_place(t["discr"])
+    neg = False
+    for _ in range(6):
+        if p is None or p[1]:
+            break
+        ds = [d for d in fn.defs().get(p[0], []) if d[1] in ("assign", "call")]
+        if len(ds) != 1 or ds[0][1] != "assign":
+            break
+        rv = ds[0][2]["rv"]
+        if rv["k"] == "un" and rv["op"] == "Not":
+            neg = not neg
+            p = op_place(rv["a"])
+        elif rv["k"] == "use":
+            p = op_place(rv["op"])
+        else:
+            break
+    return fn.edge_of(site, other_bool(val) if neg else val)
+
+
+def flag_roots(fn, op):
+    """origin roots of a tested bool, looking through negations (`if !self.armed`, `state == Pending` for a two-valued state)"""
+    roots = fn.origins(op)
+    out = []
+    seen = 0
+    work = list(roots)
+    while work and seen < 50:
+        r = work.pop()
+        seen += 1
+        if r["k"] == "un" and r.get("op") == "Not":
+            work += fn.origins(r["a"])
+        else:
+            out.append(r)
+    return out
+
+
 def guard_flags(db):
     """(armed, notify_on_cancel) field names of the lifecycle guard, resolved by role: `armed` is the bool field whose
     test guards the cleanup's first status store; the other bool is the cancellation-notification flag"""
@@ -1192,8 +1231,9 @@ def guard_flags(db):
     for site, sw in cl.switches():
         if sw["dty"] != "bool":
             continue
-        for r in cl.origins(sw["discr"]):
-            for e in r.get("proj", []):
+        roots = flag_roots(cl, sw["discr"])
+        for r in roots:
+            for e in r.get("proj", []) + r.get("trail", []):
                 if e.startswith("f:") and len(e.split(":")) > 2 and e.split(":")[2] in bools and r["k"] in ("arg", "upvar"):
                     armed = e.split(":")[2]
         if armed:
